@@ -52,7 +52,7 @@ def instances(tier, seed):
     for rows, K, its, opts in (ROWSETS_QUICK if tier == "quick" else ROWSETS_THOROUGH):
         out.append(dict(name="%s/K%d/it%d%s" % (rows, K, its, "/" + opts if opts else ""), args=[rows, str(K), str(its), opts],
                         paths=6 if tier == "quick" else 40, base_points=1 if tier == "quick" else 3,
-                        flips_per_path=5 if tier == "quick" else 16, abstract_big=True, max_terms=3000, lra_first=True,
+                        flips_per_path=5 if tier == "quick" else 16, abstract_big=True, max_terms=3000, lra_first=True, seed_check=True,
                         z3_timeout_ms=120000 if tier == "quick" else 300000, flip_timeout_ms=1000))
     return out
 
